@@ -48,6 +48,17 @@ class ConcCx:
     def pyint(self, name, lo=None, hi=None):
         return self._get(name, int)
 
+    def bool(self, name):
+        import numpy as np
+
+        return np.bool_(self.vals[name])
+
+    def concrete_int(self, x):
+        return int(x)
+
+    def concrete_bool(self, x):
+        return bool(x)
+
     def assume(self, *a):
         pass
 
